@@ -62,6 +62,11 @@ class Check(PropertyCheck):
         n_obs = 0
         subscribed = set()
         n_acc = 0
+        if rng.random() < 0.12:
+            # a singleton is retired and replaced; the caller then unsubscribes the retired one AGAIN (an error, nothing happens) and tries
+            # to construct a third: refused, the second one is subscribed
+            k_ = rng.choice(["history", "unscheduled", "makespan_reward", "idle_reward"])
+            lines += [f"obs {k_}", "unsub 0", f"obs {k_}", "unsub 0", f"obs {k_}", f"obsn2 {k_}", "wsnap"]
         for _ in range(rng.randint(0, 4)):
             lines.append("obs " + rng.choice(KINDS))
         for _ in range(rng.randint(0, 2)):
